@@ -20,31 +20,39 @@ def sig(func):
 
 
 def name_guard(rep, rule, func, site):
-    """isinstance(name, str) test raising ValueError dominates the first
-    cache access."""
+    """the isinstance(name, str) test (any spelling) sends non-str names to
+    `raise ValueError` and guards every cache access / lookup."""
+    from ..facts import test_nodes, guarded
     cfg = cfg_of(func)
-    guards = [n for n in cfg.nodes if n.kind == 'test' and
-              (match('not isinstance(name, str)', n.ast) is not None)]
+    tn = test_nodes(cfg, 'isinstance(name, str)')
     ok = False
-    detail = 'no `if not isinstance(name, str): raise ValueError` guard'
-    if guards:
-        g = guards[0]
-        # T edge leads to a raise ValueError
-        tsucc = [m for m, lab in g.succ if lab == 'T']
-        raises = tsucc and isinstance(tsucc[0].ast, ast.Raise) and \
-            tsucc[0].ast.exc is not None and \
-            match('ValueError($$a)', tsucc[0].ast.exc) is not None
-        access = [n for n in cfg.nodes if n.ast is not None and n is not g and (
+    detail = 'no isinstance(name, str) test'
+    if tn:
+        okraise = True
+        for n, pol in tn:
+            lab = 'F' if pol else 'T'          # edge on which name is not a str
+            nxt = [m for m, l in n.succ if l == lab]
+            for m in nxt:
+                r = cfg.reach(m, include_start=True)
+                raises = [x for x in cfg.nodes if x.id in r and isinstance(x.ast, ast.Raise)
+                          and x.ast.exc is not None and
+                          match('ValueError($$a)', x.ast.exc) is not None]
+                if cfg.exit.id in r or not raises:
+                    okraise = False
+        access = [n for n in cfg.nodes if n.ast is not None and header_expr(n) is not None
+                  and n.kind != 'test' or (n.kind == 'test' and n.ast is not None and
+                                           not any(n is t for t, _ in tn))]
+        access = [n for n in access if header_expr(n) is not None and (
             find_all(header_expr(n), 'self._getcache($$a)') or
             find_all(header_expr(n), 'self._cache') or
             find_all(header_expr(n), 'self.lookup($$a)') or
-            find_all(header_expr(n), 'providedBy($$a)')
-        ) if header_expr(n) is not None]
-        isg = lambda n: n is g
-        dom = all(cfg.dominated_by(n, isg) for n in access)
-        ok = bool(raises) and dom and bool(access)
-        detail = ('name guard raises ValueError: %s; dominates every cache '
-                  'access/lookup (%d sites): %s' % (bool(raises), len(access), dom))
+            find_all(header_expr(n), 'providedBy($$a)'))]
+        dom = bool(access) and all(
+            guarded(cfg, n, 'isinstance(name, str)', True) for n in access)
+        ok = okraise and dom
+        detail = ('non-str names always end in raise ValueError (%s); every cache '
+                  'access/lookup (%d sites) is reached only with a str name (%s)'
+                  % (okraise, len(access), dom))
     rep.check(rule, site, ok, detail, construct='name-guard', node=func)
 
 
